@@ -20,18 +20,18 @@ EXTENDS SimpleDBOps, Json, IOUtils
 
 Trace == ndJsonDeserialize(IOEnv.TRACE)
 
-VARIABLES mem, imm, queue, fpc, tables, gen, refl, csel, cout, ccfg, cfg, model, phase, pend, credit, l, bad, nok, skip, cs
-tvars == <<mem, imm, queue, fpc, tables, gen, refl, csel, cout, ccfg, cfg, model, phase, pend, credit, l, bad, nok, skip, cs>>
+VARIABLES mem, imm, queue, fpc, tables, gen, refl, csel, cout, ccfg, cfg, model, phase, pend, credit, seen, l, bad, nok, skip, cs
+tvars == <<mem, imm, queue, fpc, tables, gen, refl, csel, cout, ccfg, cfg, model, phase, pend, credit, seen, l, bad, nok, skip, cs>>
 
 NoCfg == [thr |-> 0, maxSize |-> 0, ratio |-> 0]
 ResetState ==
   /\ mem' = Empty /\ imm' = Empty /\ queue' = <<>> /\ fpc' = "idle" /\ tables' = <<>> /\ gen' = 0 /\ refl' = FALSE
   /\ csel' = <<>> /\ cout' = Empty /\ ccfg' = NoCfg /\ cfg' = NoCfg /\ model' = Empty /\ phase' = "closed" /\ pend' = <<>>
-  /\ credit' = [k \in Keys |-> 0]
+  /\ credit' = [k \in Keys |-> 0] /\ seen' = <<>>
 
 TInit == /\ mem = Empty /\ imm = Empty /\ queue = <<>> /\ fpc = "idle" /\ tables = <<>> /\ gen = 0 /\ refl = FALSE
          /\ csel = <<>> /\ cout = Empty /\ ccfg = NoCfg /\ cfg = NoCfg /\ model = Empty /\ phase = "closed" /\ pend = <<>>
-         /\ credit = [k \in Keys |-> 0]
+         /\ credit = [k \in Keys |-> 0] /\ seen = <<>>
          /\ l = 1 /\ bad = <<>> /\ nok = 0 /\ skip = FALSE /\ cs = -1
 
 Ev == Trace[l]
@@ -39,7 +39,12 @@ ReadOf(ts, i, m) == Vis(Over(Over(Stack(ts), i), m))
 ReadNow == ReadOf(tables, imm, mem)
 MetaEq(t, e) == t.gen = e.gen /\ t.nrec = e.nrec /\ t.ntomb = e.ntomb /\ t.bytes = e.bytes
 MetasEq(ts, es) == Len(ts) = Len(es) /\ \A i \in 1..Len(ts) : MetaEq(ts[i], es[i])
-PendingDels(k) == Cardinality({g \in DOMAIN pend : pend[g].op = "del" /\ pend[g].k = k})
+Norm(fl, c) == IF fl = "string" /\ c = "nil" THEN "empty" ELSE c
+Valid(p) == Norm(p.fl, p.kc) = "ok" /\ Norm(p.fl, p.vc) = "ok"
+ClassOf(p) == <<p.op, Norm(p.fl, p.kc), Norm(p.fl, p.vc)>>
+Verdict(p, r) == IF p.op = "getx" THEN r ELSE IF r = "ok" THEN "ok" ELSE "rejected"
+\* a Delete with a nil / empty key is a Delete of the empty key (rank given by the harness); it may be accepted or rejected
+PendingDels(k) == Cardinality({g \in DOMAIN pend : pend[g].op \in {"del", "delx"} /\ pend[g].k = k})
 
 \* ------------------------------------------------------------------ per event: failing clause ("ok" when the event conforms)
 Check ==
@@ -52,13 +57,20 @@ Check ==
     [] Ev.t = "ret" ->
          IF Ev.g \notin DOMAIN pend THEN "ret-without-inv"
          ELSE LET p == pend[Ev.g] IN
-              IF p.op = "get" THEN (IF Ev.r \in p.cand THEN "ok" ELSE "get-reply")
+              IF p.op \in {"get", "getx"} THEN (IF Ev.r \in p.cand THEN "ok" ELSE "get-reply")
+              ELSE IF p.op \in {"putx", "delx"} /\ ~Valid(p) THEN
+                   \* C17: invalid arguments - Put must reject them (documented); a rejected call has no effect; both flavours agree
+                   (IF p.op = "putx" /\ Ev.r = "ok" THEN "invalid-argument-accepted"
+                    ELSE IF Ev.r # "ok" /\ (p.done \/ (p.op = "delx" /\ credit[p.k] >= PendingDels(p.k))) THEN "rejected-call-had-effect"
+                    ELSE IF p.op = "delx" /\ Ev.r = "ok" /\ credit[p.k] = 0 THEN "del-returned-without-effect"
+                    ELSE IF ClassOf(p) \in DOMAIN seen /\ seen[ClassOf(p)] # Verdict(p, Ev.r) THEN "flavours-disagree"
+                    ELSE "ok")
               ELSE IF Ev.r # "ok" THEN "mutation-failed"
-              ELSE IF p.op = "put" THEN (IF p.done THEN "ok" ELSE "put-returned-without-effect")
+              ELSE IF p.op \in {"put", "putx"} THEN (IF p.done THEN "ok" ELSE "put-returned-without-effect")
               ELSE (IF credit[p.k] > 0 THEN "ok" ELSE "del-returned-without-effect")
     [] Ev.t = "put" ->
          IF refl THEN "put-during-reflect"
-         ELSE IF ~(\E g \in DOMAIN pend : pend[g].op = "put" /\ pend[g].k = Ev.k /\ pend[g].v = Ev.v /\ ~pend[g].done) THEN "put-without-call"
+         ELSE IF ~(\E g \in DOMAIN pend : pend[g].op \in {"put", "putx"} /\ Valid(pend[g]) /\ pend[g].k = Ev.k /\ pend[g].v = Ev.v /\ ~pend[g].done) THEN "put-without-call"
          ELSE "ok"
     [] Ev.t = "del" ->
          IF refl THEN "del-during-reflect"
@@ -107,6 +119,13 @@ Check ==
     [] Ev.t = "close.begin" -> IF phase # "open" THEN "close-while-closed" ELSE "ok"
     [] Ev.t = "close.flusher" -> IF queue # <<>> THEN "close-flusher-joined-with-unflushed-store" ELSE "ok"
     [] Ev.t = "close.done" -> IF mem # Empty \/ queue # <<>> THEN "close-with-unflushed-data" ELSE "ok"
+    [] Ev.t = "mut-unknown-key" ->
+         \* a mutation of a key outside the universe (the empty key): only explainable by a pending call with an invalid key
+         IF \E g \in DOMAIN pend : pend[g].op \in {"putx", "delx"} /\ ~Valid(pend[g]) THEN "ok" ELSE "mutation-of-unknown-key"
+    [] Ev.t = "crashobs" ->
+         \* C17/C02: recovery of the crash image of the quiescent database must succeed and read like the reference map
+         IF ~Ev.ok THEN "recovery-failed-on-crash-image"
+         ELSE IF \E i \in 1..Len(Ev.m) : Ev.m[i] # model[i - 1] THEN "crash-recovery-differs" ELSE "ok"
     [] Ev.t = "bgfail" -> "background-failure"
     [] Ev.t \in {"rotwal", "note"} -> "ok"
     [] OTHER -> "unknown-event"
@@ -115,59 +134,64 @@ Check ==
 Effect ==
   CASE Ev.t = "open" ->
          /\ phase' = "open" /\ cfg' = Ev.cfg /\ gen' = Ev.gen
-         /\ UNCHANGED <<mem, imm, queue, fpc, tables, refl, csel, cout, ccfg, model, pend, credit>>
+         /\ UNCHANGED <<mem, imm, queue, fpc, tables, refl, csel, cout, ccfg, model, pend, credit, seen>>
     [] Ev.t = "inv" ->
-         /\ pend' = pend @@ (Ev.g :> [op |-> Ev.op, k |-> Ev.k, v |-> Ev.v, done |-> FALSE, cand |-> {ReadNow[Ev.k]}])
-         /\ UNCHANGED <<mem, imm, queue, fpc, tables, gen, refl, csel, cout, ccfg, cfg, model, phase, credit>>
+         /\ pend' = pend @@ (Ev.g :> [op |-> Ev.op, k |-> Ev.k, v |-> Ev.v, kc |-> Ev.kc, vc |-> Ev.vc, fl |-> Ev.fl, done |-> FALSE, cand |-> {ReadNow[Ev.k]}])
+         /\ UNCHANGED <<mem, imm, queue, fpc, tables, gen, refl, csel, cout, ccfg, cfg, model, phase, credit, seen>>
     [] Ev.t = "ret" ->
          /\ pend' = [g \in DOMAIN pend \ {Ev.g} |-> pend[g]]
-         /\ credit' = IF pend[Ev.g].op = "del" THEN [credit EXCEPT ![pend[Ev.g].k] = @ - 1] ELSE credit
+         /\ credit' = IF pend[Ev.g].op \in {"del", "delx"} /\ Ev.r = "ok" THEN [credit EXCEPT ![pend[Ev.g].k] = @ - 1] ELSE credit
+         /\ seen' = IF pend[Ev.g].op \in {"putx", "delx"} /\ ~Valid(pend[Ev.g])
+                    THEN (ClassOf(pend[Ev.g]) :> Verdict(pend[Ev.g], Ev.r)) @@ seen ELSE seen
          /\ UNCHANGED <<mem, imm, queue, fpc, tables, gen, refl, csel, cout, ccfg, cfg, model, phase>>
     [] Ev.t = "put" ->
          /\ mem' = [mem EXCEPT ![Ev.k] = Ev.v] /\ model' = [model EXCEPT ![Ev.k] = Ev.v]
-         /\ LET g == CHOOSE g \in DOMAIN pend : pend[g].op = "put" /\ pend[g].k = Ev.k /\ pend[g].v = Ev.v /\ ~pend[g].done
+         /\ LET g == CHOOSE g \in DOMAIN pend : pend[g].op \in {"put", "putx"} /\ Valid(pend[g]) /\ pend[g].k = Ev.k /\ pend[g].v = Ev.v /\ ~pend[g].done
             IN pend' = [pend EXCEPT ![g].done = TRUE]
-         /\ UNCHANGED <<imm, queue, fpc, tables, gen, refl, csel, cout, ccfg, cfg, phase, credit>>
+         /\ UNCHANGED <<imm, queue, fpc, tables, gen, refl, csel, cout, ccfg, cfg, phase, credit, seen>>
     [] Ev.t = "del" ->
          /\ mem' = [mem EXCEPT ![Ev.k] = TOMB] /\ model' = [model EXCEPT ![Ev.k] = NONE]
          /\ credit' = [credit EXCEPT ![Ev.k] = @ + 1]
-         /\ UNCHANGED <<imm, queue, fpc, tables, gen, refl, csel, cout, ccfg, cfg, phase, pend>>
+         /\ UNCHANGED <<imm, queue, fpc, tables, gen, refl, csel, cout, ccfg, cfg, phase, pend, seen>>
     [] Ev.t = "rotate" ->
          /\ imm' = mem /\ mem' = Empty /\ queue' = Append(queue, mem)
-         /\ UNCHANGED <<fpc, tables, gen, refl, csel, cout, ccfg, cfg, model, phase, pend, credit>>
+         /\ UNCHANGED <<fpc, tables, gen, refl, csel, cout, ccfg, cfg, model, phase, pend, credit, seen>>
     [] Ev.t = "flush.take" ->
          /\ fpc' = "taken" /\ gen' = Ev.gen
-         /\ UNCHANGED <<mem, imm, queue, tables, refl, csel, cout, ccfg, cfg, model, phase, pend, credit>>
+         /\ UNCHANGED <<mem, imm, queue, tables, refl, csel, cout, ccfg, cfg, model, phase, pend, credit, seen>>
     [] Ev.t = "flush.skip" ->
          /\ queue' = IF queue # <<>> /\ Head(queue) = Empty /\ fpc = "idle" /\ Ev.barrier = FALSE THEN Tail(queue) ELSE queue
-         /\ UNCHANGED <<mem, imm, fpc, tables, gen, refl, csel, cout, ccfg, cfg, model, phase, pend, credit>>
+         /\ UNCHANGED <<mem, imm, fpc, tables, gen, refl, csel, cout, ccfg, cfg, model, phase, pend, credit, seen>>
     [] Ev.t = "flush.written" ->
          /\ fpc' = "written"
-         /\ UNCHANGED <<mem, imm, queue, tables, gen, refl, csel, cout, ccfg, cfg, model, phase, pend, credit>>
+         /\ UNCHANGED <<mem, imm, queue, tables, gen, refl, csel, cout, ccfg, cfg, model, phase, pend, credit, seen>>
     [] Ev.t = "install" ->
          /\ tables' = Append(tables, MkTable(gen, Head(queue), Ev.table.bytes)) /\ queue' = Tail(queue) /\ fpc' = "idle"
-         /\ UNCHANGED <<mem, imm, gen, refl, csel, cout, ccfg, cfg, model, phase, pend, credit>>
+         /\ UNCHANGED <<mem, imm, gen, refl, csel, cout, ccfg, cfg, model, phase, pend, credit, seen>>
     [] Ev.t = "compact.candidates" ->
          /\ csel' = Ev.selected /\ ccfg' = [thr |-> 0, maxSize |-> Ev.maxSize, ratio |-> Ev.ratio]
-         /\ UNCHANGED <<mem, imm, queue, fpc, tables, gen, refl, cout, cfg, model, phase, pend, credit>>
+         /\ UNCHANGED <<mem, imm, queue, fpc, tables, gen, refl, cout, cfg, model, phase, pend, credit, seen>>
     [] Ev.t = "compact.select" ->
          /\ csel' = IF Ev.compacting THEN csel ELSE <<>>
-         /\ UNCHANGED <<mem, imm, queue, fpc, tables, gen, refl, cout, ccfg, cfg, model, phase, pend, credit>>
+         /\ UNCHANGED <<mem, imm, queue, fpc, tables, gen, refl, cout, ccfg, cfg, model, phase, pend, credit, seen>>
     [] Ev.t = "compact.merged" ->
          /\ cout' = MergedData(tables, csel, FALSE)
-         /\ UNCHANGED <<mem, imm, queue, fpc, tables, gen, refl, csel, ccfg, cfg, model, phase, pend, credit>>
+         /\ UNCHANGED <<mem, imm, queue, fpc, tables, gen, refl, csel, ccfg, cfg, model, phase, pend, credit, seen>>
     [] Ev.t = "reflect.begin" ->
          /\ refl' = TRUE
-         /\ UNCHANGED <<mem, imm, queue, fpc, tables, gen, csel, cout, ccfg, cfg, model, phase, pend, credit>>
+         /\ UNCHANGED <<mem, imm, queue, fpc, tables, gen, csel, cout, ccfg, cfg, model, phase, pend, credit, seen>>
     [] Ev.t = "reflect.done" ->
          /\ LET j == IdxOfGen(Splice(tables, csel, MkMerged(csel[1], cout, 0)), csel[1])
             IN tables' = Splice(tables, csel, MkMerged(csel[1], cout, Ev.tables[j].bytes))
          /\ refl' = FALSE /\ csel' = <<>> /\ cout' = Empty
-         /\ UNCHANGED <<mem, imm, queue, fpc, gen, ccfg, cfg, model, phase, pend, credit>>
+         /\ UNCHANGED <<mem, imm, queue, fpc, gen, ccfg, cfg, model, phase, pend, credit, seen>>
+    [] Ev.t = "mut-unknown-key" ->
+         /\ pend' = [g \in DOMAIN pend |-> IF pend[g].op \in {"putx", "delx"} /\ ~Valid(pend[g]) THEN [pend[g] EXCEPT !.done = TRUE] ELSE pend[g]]
+         /\ UNCHANGED <<mem, imm, queue, fpc, tables, gen, refl, csel, cout, ccfg, cfg, model, phase, credit, seen>>
     [] Ev.t = "close.done" ->
          /\ phase' = "closed" /\ imm' = Empty
-         /\ UNCHANGED <<mem, queue, fpc, tables, gen, refl, csel, cout, ccfg, cfg, model, pend, credit>>
-    [] OTHER -> UNCHANGED <<mem, imm, queue, fpc, tables, gen, refl, csel, cout, ccfg, cfg, model, phase, pend, credit>>
+         /\ UNCHANGED <<mem, queue, fpc, tables, gen, refl, csel, cout, ccfg, cfg, model, pend, credit, seen>>
+    [] OTHER -> UNCHANGED <<mem, imm, queue, fpc, tables, gen, refl, csel, cout, ccfg, cfg, model, phase, pend, credit, seen>>
 
 \* a pending Get may observe every value the reference read takes while it is pending
 Observe == TRUE
@@ -175,20 +199,20 @@ Observe == TRUE
 Step ==
   /\ l <= Len(Trace) /\ l' = l + 1
   /\ IF Ev.t = "reset" THEN ResetState /\ skip' = FALSE /\ cs' = Ev.case /\ UNCHANGED <<bad, nok>>
-     ELSE IF skip THEN UNCHANGED <<mem, imm, queue, fpc, tables, gen, refl, csel, cout, ccfg, cfg, model, phase, pend, credit, bad, nok, skip, cs>>
+     ELSE IF skip THEN UNCHANGED <<mem, imm, queue, fpc, tables, gen, refl, csel, cout, ccfg, cfg, model, phase, pend, credit, seen, bad, nok, skip, cs>>
      ELSE LET c == Check IN
           IF c # "ok"
           THEN /\ bad' = Append(bad, [case |-> cs, line |-> l, clause |-> c, ev |-> ToString(Ev)])
                /\ skip' = TRUE
-               /\ UNCHANGED <<mem, imm, queue, fpc, tables, gen, refl, csel, cout, ccfg, cfg, model, phase, pend, credit, nok, cs>>
+               /\ UNCHANGED <<mem, imm, queue, fpc, tables, gen, refl, csel, cout, ccfg, cfg, model, phase, pend, credit, seen, nok, cs>>
           ELSE /\ Effect /\ nok' = nok + 1 /\ UNCHANGED <<bad, skip, cs>>
 
 \* after every conforming step, widen the candidate sets of the pending Gets by the current reference read
 Widen ==
-  /\ l' = l /\ UNCHANGED <<mem, imm, queue, fpc, tables, gen, refl, csel, cout, ccfg, cfg, model, phase, credit, bad, nok, skip, cs>>
-  /\ \E g \in DOMAIN pend : pend[g].op = "get" /\ ReadNow[pend[g].k] \notin pend[g].cand
-  /\ pend' = [g \in DOMAIN pend |-> IF pend[g].op = "get" THEN [pend[g] EXCEPT !.cand = @ \cup {ReadNow[pend[g].k]}] ELSE pend[g]]
-NeedWiden == ~skip /\ \E g \in DOMAIN pend : pend[g].op = "get" /\ ReadNow[pend[g].k] \notin pend[g].cand
+  /\ l' = l /\ UNCHANGED <<mem, imm, queue, fpc, tables, gen, refl, csel, cout, ccfg, cfg, model, phase, credit, seen, bad, nok, skip, cs>>
+  /\ \E g \in DOMAIN pend : pend[g].op \in {"get", "getx"} /\ ReadNow[pend[g].k] \notin pend[g].cand
+  /\ pend' = [g \in DOMAIN pend |-> IF pend[g].op \in {"get", "getx"} THEN [pend[g] EXCEPT !.cand = @ \cup {ReadNow[pend[g].k]}] ELSE pend[g]]
+NeedWiden == ~skip /\ \E g \in DOMAIN pend : pend[g].op \in {"get", "getx"} /\ ReadNow[pend[g].k] \notin pend[g].cand
 
 TNext == IF NeedWiden THEN Widen ELSE Step
 TSpec == TInit /\ [][TNext]_tvars
